@@ -52,6 +52,9 @@ class InstanceManager:
     def _get_instance_state(self, instance_uuid):
         instance = self._instances[instance_uuid]
         session_state = copy.deepcopy(instance['instance'].session_state)
+        if session_state is None:
+            # an instance without a session has no state to externalise
+            return InstanceState(None, instance_uuid, instance["time"], instance["timeout"], None)
         session_state["lock"] = False
         return InstanceState(session_state, instance_uuid, instance["time"], instance["timeout"], session_state["step"])
             
@@ -207,6 +210,9 @@ class BptkServer(Flask):
         if external_state_adapter != None:
             result = self._external_state_adapter.load_state()
             for instance_data in result:
+                if instance_data is None:
+                    # a state file that cannot be read costs that one instance only
+                    continue
                 self._instance_manager.reconstruct_instance(instance_data.instance_id, instance_data.timeout, instance_data.time, instance_data.state)
 
         # specifying the routes and methods of the api
@@ -290,6 +296,8 @@ class BptkServer(Flask):
         result = self._external_state_adapter.load_state()
 
         for instance_data in result:
+            if instance_data is None:
+                continue
             self._instance_manager.reconstruct_instance(instance_data.instance_id, instance_data.timeout, instance_data.time, instance_data.state)
 
         resp = make_response("Success", 200)
